@@ -1268,41 +1268,41 @@ Qed.
 
 (* ------------------------------------------------------------------ the library as it is (loop over the queue head) *)
 
-Theorem coll_agree_cur : forall n N0 ops, 0 <= N0 ->
-  let st := run_cur (init n N0) ops in
+Theorem coll_agree_head : forall n N0 ops, 0 <= N0 ->
+  let st := run_head (init n N0) ops in
   (indep st = false -> forall r, In r (ranks st) -> numrecs r = hdr st) /\
   (forall r, In r (ranks st) -> hdr st <= numrecs r <= Z.max N0 (written st)) /\
   N0 <= hdr st <= Z.max N0 (written st).
 Proof. intros n N0 ops Hn. apply (gen_agree commit_loop loop_hi N0 n ops Hn). Qed.
 
-Theorem numrecs_monotone_cur : forall n N0 ops1 ops2, 0 <= N0 ->
-  let st := run_cur (init n N0) ops1 in let st' := run_cur (init n N0) (ops1 ++ ops2) in
+Theorem numrecs_monotone_head : forall n N0 ops1 ops2, 0 <= N0 ->
+  let st := run_head (init n N0) ops1 in let st' := run_head (init n N0) (ops1 ++ ops2) in
   hdr st <= hdr st' /\ Forall2 (fun r r' => numrecs r <= numrecs r' /\ g_own r <= g_own r') (ranks st) (ranks st').
 Proof. intros n N0. apply (gen_monotone commit_loop loop_hi N0 n). Qed.
 
-Theorem indep_sync_agree_cur : forall n N0 ops o ops2, 0 <= N0 ->
+Theorem indep_sync_agree_head : forall n N0 ops o ops2, 0 <= N0 ->
   sync_op o = true ->
-  hung (run_cur (init n N0) ops) = false -> indef (run_cur (init n N0) ops) = false ->
+  hung (run_head (init n N0) ops) = false -> indef (run_head (init n N0) ops) = false ->
   forallb quiet ops2 = true ->
-  let st := run_cur (init n N0) (ops ++ o :: ops2) in
+  let st := run_head (init n N0) (ops ++ o :: ops2) in
   forall r, In r (ranks st) -> numrecs r = hdr st.
 Proof. intros n N0 ops o ops2 Hn. apply (gen_sync_agree commit_loop loop_hi N0 n ops o ops2 Hn). Qed.
 
 (* the full statements, as they would read for the library as it is *)
 Definition coll_coherent_full : Prop := forall n N0 ops, 0 <= N0 ->
-  let st := run_cur (init n N0) ops in
+  let st := run_head (init n N0) ops in
   indep st = false ->
   forall r, In r (ranks st) -> numrecs r = hdr st /\ hdr st = Z.max N0 (written st).
 
 Definition indep_then_sync_full : Prop := forall n N0 ops o ops2, 0 <= N0 ->
   sync_op o = true ->
-  hung (run_cur (init n N0) ops) = false -> indef (run_cur (init n N0) ops) = false ->
+  hung (run_head (init n N0) ops) = false -> indef (run_head (init n N0) ops) = false ->
   forallb quiet ops2 = true ->
-  let st := run_cur (init n N0) (ops ++ o :: ops2) in
+  let st := run_head (init n N0) (ops ++ o :: ops2) in
   forall r, In r (ranks st) -> numrecs r = hdr st /\ hdr st = Z.max N0 (written st).
 
 Definition completed_write_readable_full : Prop := forall n N0 ops, 0 <= N0 ->
-  let st := run_cur (init n N0) ops in
+  let st := run_head (init n N0) ops in
   (forall r, In r (ranks st) -> g_own r <= numrecs r) /\
   (indep st = false -> forall r, In r (ranks st) -> written st <= numrecs r).
 
@@ -1343,7 +1343,7 @@ Qed.
 
 Theorem coll_coherent_partial : forall n N0 ops, 0 <= N0 ->
   hist_allb commit_loop head_ok (init n N0) ops = true ->
-  let st := run_cur (init n N0) ops in
+  let st := run_head (init n N0) ops in
   indep st = false ->
   forall r, In r (ranks st) -> numrecs r = hdr st /\ hdr st = Z.max N0 (written st).
 Proof.
@@ -1353,9 +1353,9 @@ Qed.
 Theorem indep_then_sync_partial : forall n N0 ops o ops2, 0 <= N0 ->
   hist_allb commit_loop head_ok (init n N0) (ops ++ o :: ops2) = true ->
   sync_op o = true ->
-  hung (run_cur (init n N0) ops) = false -> indef (run_cur (init n N0) ops) = false ->
+  hung (run_head (init n N0) ops) = false -> indef (run_head (init n N0) ops) = false ->
   forallb quiet ops2 = true ->
-  let st := run_cur (init n N0) (ops ++ o :: ops2) in
+  let st := run_head (init n N0) (ops ++ o :: ops2) in
   forall r, In r (ranks st) -> numrecs r = hdr st /\ hdr st = Z.max N0 (written st).
 Proof.
   intros n N0 ops o ops2 Hn Hh. apply (gen_indep_then_sync commit_loop loop_hi N0 n ops o ops2 Hn).
@@ -1364,7 +1364,7 @@ Qed.
 
 Theorem completed_write_readable_partial : forall n N0 ops, 0 <= N0 ->
   hist_allb commit_loop head_ok (init n N0) ops = true ->
-  let st := run_cur (init n N0) ops in
+  let st := run_head (init n N0) ops in
   (forall r, In r (ranks st) -> g_own r <= numrecs r) /\
   (indep st = false -> forall r, In r (ranks st) -> written st <= numrecs r).
 Proof.
@@ -1389,8 +1389,8 @@ Example coll_coherent_ex :
 Proof. vm_compute. repeat split. Qed.
 
 (* the library as it is on the same history: 0 everywhere although record 5 has been written *)
-Example f1_witness_cur :
-  let st := run_cur (init 2 0) f1_witness in
+Example f1_witness_head :
+  let st := run_head (init 2 0) f1_witness in
   map numrecs (ranks st) = [0; 0] /\ hdr st = 0 /\ written st = 6 /\ hist_allb commit_loop head_ok (init 2 0) f1_witness = false.
 Proof. vm_compute. repeat split. Qed.
 
@@ -1400,7 +1400,7 @@ Definition subset_ok_hist : list op :=
    WaitAll [WIds [Some 0%nat]; WIds []; WIds [Some 0%nat]]; BeginIndep; IndepPutRec 1 (PRec 9); EndIndep].
 Example partial_hyp_ex :
   hist_allb commit_loop head_ok (init 3 0) subset_ok_hist = true /\
-  let st := run_cur (init 3 0) subset_ok_hist in map numrecs (ranks st) = [10; 10; 10] /\ hdr st = 10 /\ indep st = false.
+  let st := run_head (init 3 0) subset_ok_hist in map numrecs (ranks st) = [10; 10; 10] /\ hdr st = 10 /\ indep st = false.
 Proof. vm_compute. repeat split. Qed.
 
 (* independent writes, different counts per rank, then a synchronisation call *)
